@@ -238,6 +238,26 @@ bool modelCall(State &S, const CallBase *CB, const std::string &name, std::vecto
     }
     finishCall(S, CB, r); return true;
   }
+  if (name == "strnlen") {
+    Val p = arg(0), nv = arg(1);
+    tighten(S, nv);
+    if (p.k != Val::PTR || p.reg < 0 || p.maybenull || nv.k != Val::INT) { alarm(S, "NULL", CB, "strnlen of NULL/untracked pointer"); finishCall(S, CB, Val::top(64)); return true; }
+    Region &R = S.regions[p.reg];
+    i128 lo, hi; absStrlen(S, p, lo, hi);
+    i128 nlo = umin(nv), nhi = umax(nv);
+    i128 olo, ohi; offsetBounds(S, p, olo, ohi);
+    Val r;
+    if (R.isString && R.sizeRoot >= 0 && olo == ohi) {
+      // length is a root: the result is that root as long as it cannot exceed the bound, otherwise a plain range
+      i128 rlo = S.roots[R.sizeRoot].lo + R.sizeK - 1 - olo, rhi = S.roots[R.sizeRoot].hi + R.sizeK - 1 - olo;
+      if (rhi <= nlo) { r = Val::top(64, P_OTHER); r.root = R.sizeRoot; r.rk = R.sizeK - 1 - olo; tighten(S, r); }
+      else r = Val::range(64, ConstantRange::getNonEmpty(APInt(64, (uint64_t)std::max((i128)0, std::min(rlo, nlo))), APInt(64, (uint64_t)std::min(rhi, nhi)) + 1), P_OTHER);
+    } else {
+      i128 h2 = hi < 0 ? nhi : std::min(hi, nhi);
+      r = Val::range(64, ConstantRange::getNonEmpty(APInt(64, (uint64_t)std::min(lo, nlo)), APInt(64, (uint64_t)h2) + 1), P_OTHER);
+    }
+    finishCall(S, CB, r); return true;
+  }
   if (name == "strncmp" || name == "memcmp" || name == "strcmp") {
     Val a = arg(0), b = arg(1);
     i128 n = ((i128)1 << 40);
@@ -458,7 +478,8 @@ bool modelCall(State &S, const CallBase *CB, const std::string &name, std::vecto
       bool exact = true; unsigned __int128 val = 0; bool ovf = false; bool messy = false;
       i128 i = olo;
       ByteCell c0 = readByte(S, R, i);
-      if ((c0.cs & lead).any()) messy = true;
+      if (c0.cs.count() == 1 && c0.cs['+']) i = olo + 1;        // an explicit plus sign: the digits follow
+      else if ((c0.cs & lead).any()) messy = true;
       bool stoppedLo = false;
       for (; i < lim; i++) {
         ByteCell c = readByte(S, R, i);
